@@ -190,6 +190,16 @@ func c02Run(c *core.Ctx) {
 			c02One(c, mkCase(src, v, "special head/body/tail or literal form"))
 		}
 	}
+	// multi-line regions (see C04): tokens that contain line terminators of every kind
+	for _, tpl := range c04Regions {
+		for _, r := range c04RegionTexts(3) {
+			for _, v := range []*version.Version{drive.V74, drive.V56} {
+				if c.Next() {
+					c02One(c, mkCase(strings.Replace(tpl, "R", r, 1), v, "multi-line region with a mix of line terminators"))
+				}
+			}
+		}
+	}
 	for _, src := range chainPrograms(c) {
 		for _, v := range []*version.Version{drive.V74, drive.V56} {
 			if c.Next() {
